@@ -84,6 +84,12 @@ CHECKS.update({
         note='Trusted: symnp engine, z3; dyadic 2x2 operators, 1-2 iterations. The property clause "drive the iterate towards optimality" (a limit) is outside: only fixed points and one-step monotonicity are decided. One known finding (forward_backward_pd relaxation aliased).',
         ref='DESIGN.md section 4 C12'),
 })
+CHECKS.update({
+    'C14': dict(
+        text='Partitions are built by the real factory code (np proxy installed in odl.discr.partition/grid and odl.set.domain) from symbolic limits (uniform, every per-side nodes_on_bdry choice, lengths 1..4, ndim 1-2) and symbolic strictly increasing coordinate vectors (non-uniform); z3 decides: boundaries strictly increasing from min to max, nodes inside their cells, sizes sum to the extent, cell side x count = extent for the requested node placement, boundary fractions; index(p) returns the containing cell and the documented fractional position for every p; slices (unit-step and strided, per-axis combinations), squeeze, byaxis, insert and append consist of exactly the selected cells; alternative uniform specifications give term-equal partitions. Multi-argument insert/append axis bookkeeping, the rounding specification (min,max,cell_sides) and the shared-grid / length-1 stride sequence are checked as concrete facts.',
+        note='Trusted: symnp engine incl. searchsorted/isclose/linspace rules, z3. Preconditions stated: extent >= 1, |limits| <= 64, nodes on a limit or >= 1/8 away (np.isclose window).',
+        ref='DESIGN.md section 4 C14'),
+})
 NOT_YET = {}
 
 
